@@ -60,14 +60,16 @@ func periodMap(cmd []string, out string) (map[string][]*big.Rat, error) {
 }
 
 func runC12(c *core.Ctx) {
-	c.SetRule("histories: 2-8 day blocks over one shared book (repeated dates, empty days, days that are permutations of one another, dates in any order), every split point i, a third of them additionally under a -b/-e period; per-day reports (reg in three renderers, reg --totals-only, csv log, print, reg -f P, reg -s X) must satisfy out(B1..Bk) == out(B1..Bi) ++ out(Bi+1..Bk) byte for byte; period reports (bal, bal -c, bal -s X, report totals, report quantity) must be the element-wise sum of the parts (exact pool: exact; general pool: 3 half-units). Prefix, suffix and whole run back to back in one server process, so state leaking across invocations would show too. Non-trivial = history with >= 3 blocks; distinct = hash(files, split).")
+	c.SetRule("histories: 2-8 day blocks over one shared book (repeated dates, empty days, days that are permutations of one another, dates in any order), every split point i, a third of them additionally under a -b/-e period; per-day reports (reg in three renderers, reg --totals-only, csv log, print, reg -f P, reg -s X) must satisfy out(B1..Bk) == out(B1..Bi) ++ out(Bi+1..Bk) byte for byte; period reports (bal, bal -s X, report totals, report quantity) must be the element-wise sum of the parts (exact pool: exact; general pool: 3 half-units). Prefix, suffix and whole run back to back in one server process, so state leaking across invocations would show too. Non-trivial = history with >= 3 blocks; distinct = hash(files, split).")
 	pool := newPool(c, c.Procs)
 	if pool == nil {
 		return
 	}
 	defer pool.Close()
 	perDay := [][]string{{"reg"}, {"reg", "--internal-template-name", "left-aligned"}, {"reg", "--use-old-reg-reporter"}, {"reg", "--totals-only"}, {"csv", "log"}, {"print"}, {"reg", "-f", "P"}, {"reg", "-s", "X"}, {"reg", "-s", "X", "--csv"}}
-	period := [][]string{{"bal"}, {"bal", "-c"}, {"bal", "-s", "X"}, {"report", "totals"}, {"report", "quantity"}}
+	// bal --collapse is not composed: which segments it joins depends on the whole tree, so its row set is
+	// not additive over parts (a false alarm of an earlier version of this check, see DESIGN 10.3); C03 covers it
+	period := [][]string{{"bal"}, {"bal", "-s", "X"}, {"report", "totals"}, {"report", "quantity"}}
 	n := c.N(500, 10000)
 	core.ParallelFor(n, c.Procs, func(wk, i int) {
 		srv := pool.Servers[wk]
